@@ -94,12 +94,15 @@ def run(rep: Report, ctx: Any) -> str:
                       "through %r of the raw value")
     it, ji = ctx.flow
     n_v = 0
+    per_class: dict[str, int] = {"str_enum.py.jinja": 0, "int_enum.py.jinja": 0}
     for e in ji.emissions.values():
         # the member value: second component of the loop over enum.values (canonical loop variable `ITER[*].1`)
         # (in the literal template every expression that reads the member set emits values, whatever it converts them with)
         if e.template in ("str_enum.py.jinja", "int_enum.py.jinja") and re.search(r"enum\.values[^ ]*?\[\*\]\.1\b", e.expr) or \
                 (e.template == "literal_enum.py.jinja" and "enum.values" in e.expr):
             n_v += 1
+            if e.template in per_class:
+                per_class[e.template] += 1
             dbl = {l for l in e.labels if l.startswith("REPR_OF_ESC")}
             rep.check(not dbl, "R14.4", f"{e.template}::{e.expr}#{e.ordinal}@{e.kind}",
                       "an enum value is escaped twice on its way into the generated class: the member's wire value differs from the "
@@ -109,6 +112,10 @@ def run(rep: Report, ctx: Any) -> str:
                           "string enum value is not emitted as escaped text inside a \"...\" literal",
                           where=f"{PKG}/templates/{e.template}:{e.line}", lhs=[e.kind, sorted(e.labels)], rhs='ESC in STR1"')
     rep.floor("enum_value_emissions", n_v, 2)
+    for tname, k in per_class.items():
+        # every class template writes its members somewhere: when no emission of a member value is found for it the walk over the
+        # template did not get there (a construct the interpreter does not follow), which is not the same as "nothing is wrong"
+        rep.require(k > 0, f"an emission of the member values in {tname}")
     # Literal[...] arguments and the members of the VALUES set are Python source: the only conversion that writes every str / int as
     # a Python literal denoting the same value is repr (`"%r"|format(x)`); str() leaves strings unquoted and tojson writes JSON text
     # (other escapes: characters outside the BMP become surrogate pairs, which a Python literal does not recombine)
@@ -345,15 +352,16 @@ def _enum_encoders(rep: Report, jx: Any, et: Any) -> None:
     for tname in ("str_enum.py.jinja", "int_enum.py.jinja"):
         ti = jx.templates.get(tname)
         rep.require(ti, tname)
-        ok, shown = _str_is_value(ti)
+        ok, shown = _str_is_value(ti, jx)
         rep.check(ok or not relies_on_str, "R14.3", f"{tname}::__str__", f"the encoders {sorted(set(relies_on_str))} send str(<member>), but the "
                   "generated enum class does not define __str__ to return the member's value: 'ClassName.MEMBER' is sent instead of the "
                   "listed value", where=f"{PKG}/templates/{tname}", lhs=shown, rhs="def __str__(self): return str(self.value)")
 
 
-def _str_is_value(ti: Any) -> "tuple[bool, str | None]":
-    """the generated class defines __str__ and every path of it returns the member's value (as text)"""
-    text = _as_python(list(tplq.frags(ti.tree.body)), None)
+def _str_is_value(ti: Any, jx: Any) -> "tuple[bool, str | None]":
+    """the generated class defines __str__ and every path of it returns the member's value (as text); the class is the module the
+    template renders: the layout it inherits (`extends`) with its blocks filled in"""
+    text = _as_python(list(tplq.frags(tplq.flatten_extends(jx, ti))), None)
     try:
         tree = ast.parse(text)
     except SyntaxError:
